@@ -445,8 +445,12 @@ package device
 //@   requires wf(d) && tableOK(d) && ie != nil && cfgRanges(d.config) && cfgDz(d.config) && lavOK(d.config, d.lastAnalogValue) && envAbs(d, ie)
 //@   ensures lavOK(d.config, d.lastAnalogValue)
 //@   cut load(.DeadzoneAtCenter) [C05,C06] !isNaN(value) && value >= -1.0 && value <= 1.0 && (!canBeNegative ==> value >= 0.0) && (canBeNegative <==> min < 0)
+//@   cut load(.DeadzoneAtCenter) [C06] (ie.Event.Value == max ==> value == 1.0) && (ie.Event.Value == min && min < 0 ==> value == -1.0) && (ie.Event.Value == 0 ==> value == 0.0)
 //@   cut load(.Deadzones) [C05,C06] !isNaN(value) && value >= -1.0 && value <= 1.0 && (!canBeNegative ==> value >= 0.0)
+//@   cut load(.Deadzones) [C06] (ie.Event.Value == max ==> value == 1.0) && (ie.Event.Value == min && min < 0 ==> value == -1.0) && (ie.Event.Value == 0 && min < 0 ==> value == 0.0) && (ie.Event.Value == 0 && min >= 0 ==> value == (if analog.DeadzoneAtCenter then -1.0 else 0.0))
 //@   cut load(.lastAnalogValue) [C05,C06] (isNaN(value) || value >= -1.0078) && (isNaN(value) || value <= 1.0038) && (isNaN(value) || canBeNegative || value >= 0.0)
+// end stops map exactly to the ends, the rest position exactly to 0, for every deadzone in [0,1)
+//@   cut load(.lastAnalogValue) [C06] deadzone >= 0.0 && deadzone < 1.0 ==> (ie.Event.Value == max ==> value == 1.0) && (ie.Event.Value == min && min < 0 ==> value == -1.0) && (ie.Event.Value == 0 && min < 0 ==> value == 0.0) && (ie.Event.Value == 0 && min >= 0 && !analog.DeadzoneAtCenter ==> value == 0.0) && (ie.Event.Value == 0 && min >= 0 && analog.DeadzoneAtCenter ==> value == -1.0)
 //@   cut load(.MappingType) [C05,C06] (isNaN(value) || value >= -1.0078) && (isNaN(value) || value <= 1.0078) && (isNaN(value) || canBeNegative || value >= -0.0039) && (isNaN(value) || canBeNegative || value <= 1.0038)
 //@   ensures wf(d) && tableOK(d)
 //@   ensures [C01!] old(Inv(d)) ==> Inv(d)
